@@ -1,4 +1,4 @@
-// @file host=src/lib.rs mod=verif_const constitems=1
+// @file host=src/lib.rs mod=verif_const constitems=1 compileverdict=C18
 //! Engine-K obligations for the const API (C18).  Each `const fn summary()` below drives the crate's const fns over
 //! every slice length 0..=cap; it is evaluated TWICE: by rustc's const evaluator (the `const S` items - an error there
 //! is E0080, which the driver reports as the C18 violation, since the const evaluator rejecting a call IS the
